@@ -511,6 +511,20 @@ func CheckMain(id, tier string) int {
 			lines = append(lines, fmt.Sprintf("VIOLATION property=%s replay=%s sig=%s cases=%d detail=%s", id, path, s, a.sum.SigCounts[s], oneLine(f.Fail.Detail)))
 		}
 	}
+	// results of an auxiliary pass run by run.sh before this check (C16: free-running race detector)
+	var extra map[string]interface{}
+	if p := os.Getenv("VERIF_EXTRA_RESULT"); p != "" {
+		if b, err := os.ReadFile(p); err == nil {
+			json.Unmarshal(b, &extra)
+		}
+		if extra != nil {
+			if v, _ := extra["violation"].(string); v != "" {
+				violations++
+				rp, _ := extra["replay"].(string)
+				lines = append(lines, fmt.Sprintf("VIOLATION property=%s replay=%s sig=%s", id, rp, v))
+			}
+		}
+	}
 	for _, l := range lines {
 		fmt.Println(l)
 	}
@@ -538,6 +552,17 @@ func CheckMain(id, tier string) int {
 	}
 	if a.sum.Samples == nil {
 		cov["samples"] = []interface{}{}
+	}
+	if extra != nil {
+		cov["auxiliary_pass"] = extra
+	}
+	if p := os.Getenv("VERIF_INSTR_REPORT"); p != "" {
+		if b, err := os.ReadFile(p); err == nil {
+			var rep map[string]interface{}
+			if json.Unmarshal(b, &rep) == nil {
+				cov["instrumentation"] = rep
+			}
+		}
 	}
 	ev := Evidence{PropertyID: id, Tier: tier, Seed: Seed(), Level: sc.Level(), Coverage: cov, Assumptions: sc.Assumptions(),
 		WallS: time.Since(t0).Seconds(), Violations: violations}
